@@ -152,6 +152,8 @@ def register(reg):
     register_support_interval(reg)
     register_handlers(reg)
     register_operator_node(reg)
+    register_operator_init(reg)
+    register_monotonic(reg)
 
 
 # ------------------------------------------------------------------------------------------------
@@ -669,4 +671,335 @@ def replay_operator_evaluate(inputs, clause):
     want_kw = {n: ("ctx", f"kw:{n}") for n in kwnames}
     if tuple(res.operands) != want_ops or dict(res.kwoperands) != want_kw or list(res.kwoperands) != kwnames:
         return f"evaluateInner built operands {res.operands!r} / keywords {res.kwoperands!r}; expected {want_ops!r} / {want_kw!r}"
+    return None
+
+
+# ------------------------------------------------------------------------------------------------
+# (3b) OperatorDistribution.__init__: the node records the operation faithfully
+
+REFLECTED = {}
+for _o in ["add", "sub", "mul", "truediv", "floordiv", "mod", "divmod", "pow"]:
+    REFLECTED[f"__{_o}__"] = f"__r{_o}__"
+    REFLECTED[f"__r{_o}__"] = f"__{_o}__"
+
+
+def register_operator_init(reg):
+    from .common import install_distribution_stubs
+    from pyvc.values import Opaque
+
+    install_distribution_stubs(reg)
+    reg.models["scenic.core.type_support:underlyingType"] = lambda I, thing: Opaque("underlyingType")
+    reg.models[f"{D}:OperatorDistribution.inferType"] = lambda I, *a, **k: Opaque("inferredType")
+    reg.models[f"{D}:AttributeDistribution.inferType"] = lambda I, *a, **k: Opaque("inferredType")
+    reg.trust("type_support.underlyingType / *.inferType", "stubs returning an unknown type: type inference is not a carrier of C05")
+    OD = f"{D}:OperatorDistribution"
+    OPS = ["__add__", "__radd__", "__rsub__", "__floordiv__", "__rpow__", "__neg__", "__getitem__", "__call__"]
+
+    def setup(I, env):
+        eng = I.eng
+        op = OPS[eng.choose(len(OPS), "operator")]
+        npos = 0 if op == "__neg__" else (2 if op == "__call__" else 1)
+        kwn = ["beta", "alpha"] if op == "__call__" else []
+        obj = operand_stub("object", None, None)
+        ops = [operand_stub(f"operand{i}", None, None) for i in range(npos)]
+        kws = [operand_stub(f"kw:{n}", None, None) for n in kwn]
+        as_list = eng.choose(2, "operands given as a list?") == 1
+        env.vars.update(operator=op, obj=obj, operands=PList(ops) if as_list else tuple(ops), kwoperands=PDict(list(zip(kwn, kws))), valueType=None)
+        env.vars.update(_ops=ops, _kw=list(zip(kwn, kws)))
+
+    def post(I, env, outcome):
+        eng = I.eng
+        name = "distributions.OperatorDistribution.__init__"
+        if outcome[0] != "return":
+            return
+        v, f = env.vars, env.vars["self"].fields
+        op = v["operator"]
+        eng.check(f"{name}#ensures.operator_recorded", f.get("operator") == op)
+        eng.check(f"{name}#ensures.object_recorded", f.get("object") is v["obj"])
+        got = f.get("operands")
+        eng.check(f"{name}#ensures.operands_recorded_in_order", isinstance(got, tuple) and len(got) == len(v["_ops"]) and all(a is b for a, b in zip(got, v["_ops"])))
+        kw = f.get("kwoperands")
+        eng.check(f"{name}#ensures.keyword_operands_recorded_with_their_names", isinstance(kw, PDict) and list(kw.keys) == [n for n, _ in v["_kw"]] and all(a is b for a, (_, b) in zip(kw.vals, v["_kw"])))
+        eng.check(f"{name}#ensures.reflected_operator_is_the_python_reflection", f.get("reverse") == REFLECTED.get(op))
+        eng.check(f"{name}#ensures.symbol_only_for_reversible_operators", (f.get("symbol") is not None) == (op in REFLECTED))
+        deps = f.get("_dependencies")
+        want = [v["obj"]] + v["_ops"] + [b for _, b in v["_kw"]]
+        eng.check(f"{name}#ensures.dependencies_are_object_then_operands_then_keyword_operands", isinstance(deps, tuple) and len(deps) == len(want) and all(a is b for a, b in zip(deps, want)))
+
+    reg.add(
+        C.Contract(
+            f"{OD}.__init__",
+            params=dict(self=C.Obj(OD), operator=C.Const(None), obj=C.Const(None), operands=C.Const(None), kwoperands=C.Const(None), valueType=C.Const(None)),
+            setup=setup,
+            post=post,
+            inline=["toDistribution"],
+            properties=("C05",),
+        )
+    )
+
+
+# ------------------------------------------------------------------------------------------------
+# (4) monotonicDistributionFunction.support (keyword arm included) and the monotonicity precondition at every
+#     decoration site found in the tree; custom support functions of distributionFunction(support=...)
+
+_mono = z3.Function("monotone_method", z3.RealSort(), z3.RealSort(), z3.RealSort(), z3.RealSort())
+
+
+def register_monotonic(reg):
+    name = "distributions.monotonicDistributionFunction.support"
+
+    def closure_env(I):
+        def method(*args, **kwargs):
+            vals = list(args) + [kwargs[k] for k in sorted(kwargs)]
+            if any(v is None for v in vals):
+                I.raise_("TypeError", "the wrapped function does not accept None")
+            if len(vals) != 3:
+                I.raise_("TypeError", "wrong number of arguments")
+            return SV(_mono(*[toz3(v, want_real=True) for v in vals]), True)
+
+        return dict(method=BuiltinFn("method", method))
+
+    def setup(I, env):
+        eng = I.eng
+        a1, a2, b1, b2, c1, c2 = z3.Reals("a1!m a2!m b1!m b2!m c1!m c2!m")
+        # requires: `method` is non-decreasing in every argument
+        eng.assume(z3.ForAll([a1, a2, b1, b2, c1, c2], z3.Implies(z3.And(a1 <= a2, b1 <= b2, c1 <= c2), _mono(a1, b1, c1) <= _mono(a2, b2, c2)), patterns=[z3.MultiPattern(_mono(a1, b1, c1), _mono(a2, b2, c2))]))
+        ivs = [make_interval(eng, n) for n in ("arg0", "arg1", "kw")]
+        env.vars["subsupports"] = (ivs[0], ivs[1])
+        env.vars["k"] = ivs[2]
+        env.vars["_ivs"] = ivs
+
+    def post(I, env, outcome):
+        eng = I.eng
+        if outcome[0] != "return":
+            return
+        pts, hyps = [], []
+        for n, (lo, hi) in zip(("x0", "x1", "xk"), env.vars["_ivs"]):
+            x, h = point_in(eng, n, lo, hi)
+            pts.append(x)
+            hyps.append(h)
+        value = SV(_mono(*[toz3(p, want_real=True) for p in pts]), True)
+        check_sound(eng, name, outcome[1], True, value, sv_and(*hyps))
+        res = outcome[1]
+        if isinstance(res, tuple) and len(res) == 2:
+            ivs = env.vars["_ivs"]
+            eng.check(f"{name}#ensures.lower_bound_known_when_all_lower_bounds_known", (res[0] is not None) or any(lo is None for lo, _ in ivs))
+            eng.check(f"{name}#ensures.upper_bound_known_when_all_upper_bounds_known", (res[1] is not None) or any(hi is None for _, hi in ivs))
+
+    reg.add(
+        C.Contract(
+            f"{D}:monotonicDistributionFunction.support",
+            params=dict(subsupports=C.Const(None), k=C.Const(None)),
+            kwargs={"k": None},
+            closure_env=closure_env,
+            setup=setup,
+            post=post,
+            replay=replay_monotonic_support,
+            note="two positional arguments and one keyword argument (symbolic intervals, each bound possibly unknown); "
+            "precondition: method is non-decreasing in every argument (discharged at the decoration sites)",
+            bounded=True,
+            properties=("C05",),
+        )
+    )
+
+    # ---- decoration sites
+    for mod, fn in find_decorated("monotonicDistributionFunction"):
+        register_monotone_site(reg, mod, fn)
+    for mod, fn, sup in find_custom_supports():
+        register_custom_support_site(reg, mod, fn, sup)
+
+
+_mention_cache = {}
+
+
+def _scenic_modules_mentioning(word):
+    import os
+
+    key = (extract.SRC, word)
+    if key in _mention_cache:
+        return _mention_cache[key]
+    out = _mention_cache[key] = []
+    root = os.path.join(extract.SRC, "scenic")
+    for dp, dn, fns in os.walk(root):
+        for fn in fns:
+            if fn.endswith(".py"):
+                p = os.path.join(dp, fn)
+                try:
+                    with open(p, encoding="utf-8") as fh:
+                        if word not in fh.read():
+                            continue
+                except OSError:
+                    continue
+                rel = os.path.relpath(p, extract.SRC)[:-3].replace(os.sep, ".")
+                if rel.endswith(".__init__"):
+                    rel = rel[: -len(".__init__")]
+                out.append(rel)
+    out.sort()
+    return out
+
+
+def find_decorated(deco):
+    """Module-level functions decorated with @<deco> (bare name or call) anywhere under src/scenic."""
+    out = []
+    for mod in _scenic_modules_mentioning("@" + deco):
+        m = extract.get_module(mod)
+        for node in m.tree.body:
+            if isinstance(node, ast.FunctionDef):
+                for d in node.decorator_list:
+                    f = d.func if isinstance(d, ast.Call) else d
+                    if isinstance(f, ast.Name) and f.id == deco:
+                        out.append((mod, node.name))
+    return out
+
+
+def find_custom_supports():
+    """Module-level functions decorated with @distributionFunction(support=<module-level name>)."""
+    out = []
+    for mod in _scenic_modules_mentioning("@distributionFunction(support="):
+        m = extract.get_module(mod)
+        for node in m.tree.body:
+            if isinstance(node, ast.FunctionDef):
+                for d in node.decorator_list:
+                    if isinstance(d, ast.Call) and isinstance(d.func, ast.Name) and d.func.id == "distributionFunction":
+                        for kw in d.keywords:
+                            if kw.arg == "support" and isinstance(kw.value, ast.Name) and isinstance(m.top.get(kw.value.id), ast.FunctionDef):
+                                out.append((mod, node.name, kw.value.id))
+    return out
+
+
+def _python_builtins(I):
+    return PDict([("max", I.builtins["max"]), ("min", I.builtins["min"]), ("abs", I.builtins["abs"])])
+
+
+def register_monotone_site(reg, mod, fn):
+    target = f"{mod}:{fn}"
+    short = f"{mod.split('.')[-1]}.{fn}"
+    N = 2
+    holder = {}
+
+    def setup(I, env):
+        eng = I.eng
+        holder["c"].env["__builtins__"] = _python_builtins(I)
+        xs = [eng.fresh_real(f"x{i}") for i in range(N)]
+        ys = [eng.fresh_real(f"y{i}") for i in range(N)]
+        for i in range(N):
+            eng.assume(compare("<=", xs[i], ys[i]))
+            eng.input_syms.append((f"x{i}", C.Real(), xs[i]))
+            eng.input_syms.append((f"y{i}", C.Real(), ys[i]))
+        env.vars["args"] = tuple(xs)
+        env.vars["_ys"] = ys
+
+    def post(I, env, outcome):
+        eng = I.eng
+        if outcome[0] != "return":
+            return
+        ex = extract.extract(target)
+        f = FuncVal(ex.node, ex.module, None, target, None)
+        try:
+            r2 = I.run_function(f, list(env.vars["_ys"]), {}, holder["c"])
+        except SymRaise as sr:
+            eng.check(f"{short}#requires_of_monotonicDistributionFunction.total_on_reals", False, detail=repr(sr.exc))
+            return
+        eng.check(f"{short}#requires_of_monotonicDistributionFunction.non_decreasing_in_every_argument", compare("<=", outcome[1], r2))
+
+    c = C.Contract(
+        target,
+        params=dict(args=C.Const(None)),
+        setup=setup,
+        post=post,
+        replay=make_replay_monotone_site(mod, fn),
+        note="decoration site of @monotonicDistributionFunction: called with 2 real arguments x <= y componentwise",
+        bounded=True,
+        properties=("C05",),
+    )
+    holder["c"] = c
+    reg.add(c, key=f"{target}[monotone]")
+
+
+def make_replay_monotone_site(mod, fn):
+    def replay(inputs, clause):
+        import importlib
+
+        from scenic.core.distributions import FunctionDistribution, Range, supportInterval, underlyingFunction
+
+        f = getattr(importlib.import_module(mod), fn)
+        raw = underlyingFunction(f)
+        xs = [float(inputs[f"x{i}"]) for i in range(2)]
+        ys = [float(inputs[f"y{i}"]) for i in range(2)]
+        a, b = raw(*xs), raw(*ys)
+        if a > b + 1e-12:
+            lo_hi = None
+            try:
+                # the consequence for supports: an interval whose ends are (x_i, y_i)
+                d = f(*[Range(x, y) if x < y else x for x, y in zip(xs, ys)])
+                lo_hi = supportInterval(d)
+            except Exception:
+                pass
+            return f"{mod}.{fn} is declared monotonic, but {fn}{tuple(xs)} = {a} > {fn}{tuple(ys)} = {b} although {xs} <= {ys} componentwise; supportInterval({fn}(Range(x_i, y_i)...)) = {lo_hi}"
+        return None
+
+    return replay
+
+
+def register_custom_support_site(reg, mod, fn, sup):
+    target = f"{mod}:{sup}"
+    short = f"{mod.split('.')[-1]}.{sup}"
+    N = 2
+    holder = {}
+
+    def setup(I, env):
+        eng = I.eng
+        holder["c"].env["__builtins__"] = _python_builtins(I)
+        ivs = [make_interval(eng, f"arg{i}") for i in range(N)]
+        env.vars["subsupports"] = tuple(ivs)
+        env.vars["_ivs"] = ivs
+
+    def post(I, env, outcome):
+        eng = I.eng
+        if outcome[0] != "return":
+            return
+        pts, hyps = [], []
+        for i, (lo, hi) in enumerate(env.vars["_ivs"]):
+            x, h = point_in(eng, f"x{i}", lo, hi)
+            pts.append(x)
+            hyps.append(h)
+        ex = extract.extract(f"{mod}:{fn}")
+        f = FuncVal(ex.node, ex.module, None, f"{mod}:{fn}", None)
+        try:
+            value = I.run_function(f, pts, {}, holder["c"])
+        except SymRaise:
+            return
+        check_sound(eng, f"{short}[support of {fn}]", outcome[1], True, value, sv_and(*hyps))
+
+    ex = extract.extract(target)
+    params = dict(subsupports=C.Const(None)) if ex.node.args.vararg is not None and ex.node.args.vararg.arg == "subsupports" else None
+    if params is None:
+        return  # unknown calling convention: listed as not reached
+    c = C.Contract(target, params=params, setup=setup, post=post, note=f"custom support function of {fn}: 2 arguments", bounded=True, properties=("C05",))
+    holder["c"] = c
+    reg.add(c, key=f"{target}[support of {fn}]")
+
+
+def replay_monotonic_support(inputs, clause):
+    """Real monotonicDistributionFunction around a monotone function of two positional and one keyword argument."""
+    from scenic.core.distributions import monotonicDistributionFunction
+
+    def f(a, b, k=0.0):
+        return a + b + k
+
+    h = monotonicDistributionFunction(f)
+    ivs = [(inputs.get(f"{n}.lo"), inputs.get(f"{n}.hi")) for n in ("arg0", "arg1", "kw")]
+    d = h(_stub_dist(*ivs[0]), _stub_dist(*ivs[1]), k=_stub_dist(*ivs[2]))
+    lo, hi = d.supportInterval()
+    pts = [inputs.get(n) for n in ("x0", "x1", "xk")]
+    if any(p is None for p in pts):
+        # no point in the model (a totality obligation): take the interval ends
+        pts = [iv[0] if iv[0] is not None else (iv[1] if iv[1] is not None else 0.0) for iv in ivs]
+    v = f(float(pts[0]), float(pts[1]), k=float(pts[2]))
+    if (lo is not None and v < lo - 1e-9) or (hi is not None and v > hi + 1e-9):
+        return f"support of a monotone f(a, b, k=) over intervals {ivs} is reported as ({lo}, {hi}) but f{tuple(pts)} = {v}"
+    if lo is None and all(iv[0] is not None for iv in ivs):
+        return f"lower bound unknown although every lower bound is known: {ivs}"
+    if hi is None and all(iv[1] is not None for iv in ivs):
+        return f"upper bound unknown although every upper bound is known: {ivs}"
     return None
